@@ -144,6 +144,15 @@ CLAIMS = {
             "actions from an alphabet of 18 concrete actions is enumerated completely.",
             "concatenate / combine never applied to an array and itself; order among tied bins after sort is free.",
             "DESIGN.md 6/C16"),
+    "C17": ("exploration", "property-based testing of option combinations against an explicit enumeration of all feasible assignments (exact rational arithmetic), with an exception oracle for infeasible requests",
+            "The ILP partitioner on <=6 items (values <=200), 1-4 bins, 5 objectives, copies (default, 1, 2, per item 0/1/2), weights (none, all 1, all "
+            "equal, positive integers), a constraint smallest==c / largest<=c / smallest>=c with c at the attainable values +-1, occasionally a "
+            "tiny time limit. Each name must be placed exactly `copies` times, sums must describe bins and be non-decreasing (no / equal weights), "
+            "the constraint must hold, the objective on (sum_i / weight_i) must equal the optimum over all feasible assignments, equal weights "
+            "must leave the plain optimum, an infeasible request must raise ValueError and return nothing, and a tiny limit must end in "
+            "ValueError or an optimal answer.",
+            "Weighted optimum taken over assignments whose weight-normalised sums are non-decreasing in bin index (documented ordering of the sums handed to additional_constraints); CBC inconsistencies told apart by re-solving with preprocessing off.",
+            "DESIGN.md 6/C17"),
     "C19": ("exploration", "property-based testing with an exception oracle (negative testing with a positive control)",
             "Valid packing inputs with 1-3 oversize items inserted at generated positions for all five packers x five input "
             "formats x all ten output types must raise ValueError; cbldm with exactly one invalid argument (bin count, "
